@@ -851,9 +851,10 @@ class CstStatementDeserializer:
         if admitted is None:
             return Disposition.DROPPED_UNSUPPORTED_SHAPE
         node, bound_var, bound_type, accessible, is_uninterpreted = admitted
-        names = _RootNameCollector.collect(node)
-        if bound_var is not None:
-            names.discard(bound_var)
+        # Names the statement binds itself -- its assignment target, but also the
+        # parameters of a lambda or the targets of a comprehension -- are local
+        # to it and not references to the surrounding test.
+        names = _RootNameCollector.collect(node) - _BlockBindingCollector.collect(node)
         if not names <= state.known:
             return Disposition.DROPPED_UNKNOWN_NAMES
 
